@@ -39,6 +39,7 @@ import Driver.CodeWrap
 import Driver.ApacheFile
 import Driver.PyUtil
 import Driver.Registry
+import Driver.BcryptFinalize
 /-
 Line protocol driver: `<suite> <op> <args…>` per input line, one result line out.
 Compiled (`lean_exe modeldrv`); nothing imported here touches Mathlib.
@@ -86,6 +87,7 @@ def dispatch (line : String) : String :=
   | "afile" :: rest => Driver.ApacheFile.handle rest
   | "putil" :: rest => Driver.PyUtil.handle rest
   | "preg" :: rest => Driver.Registry.handle rest
+  | "bfin" :: rest => Driver.BcryptFinalize.handle rest
   | _ => Driver.bad
 
 partial def loop (h : IO.FS.Stream) (out : IO.FS.Stream) : IO Unit := do
